@@ -599,6 +599,8 @@ class SArr(SArrBase):
             o = SArr.from_list(o)
         elif _is_np_array(o):
             o = SArr.from_concrete(o) if o.ndim else o.item()
+        elif hasattr(o, "materialise") and not isinstance(o, SArr):
+            o = o.materialise()          # a view object of the numpy shim: use its current values
         if isinstance(o, SArr):
             shape = broadcast_shapes(self.shape, o.shape)
             a = broadcast_to(self, shape)
